@@ -9,6 +9,7 @@ import (
 	"github.com/valyala/fastjson"
 
 	. "github.com/cube2222/octosql/execution"
+	"github.com/cube2222/octosql/helpers/verifhook"
 	"github.com/cube2222/octosql/octosql"
 	"github.com/cube2222/octosql/physical"
 )
@@ -46,6 +47,7 @@ var parserWorkReceiveChannel = func() chan<- jobIn {
 
 		getWorkLoop:
 			for job := range inChan {
+				verifhook.JSONWorkerDelay(job.lines[0])
 				outJobs := make([]jobOutRecord, len(job.lines))
 				for i := range outJobs {
 					out := &outJobs[i]
